@@ -1251,6 +1251,8 @@ def bf_write_forms(d, n):
     if BF_ALL_FORMS or len(bf_leaves(d)) <= 4:
         return list(BF_WRITE_FORMS)
     rest = BF_WRITE_FORMS[1:]
+    if len(bf_leaves(d)) > 12:      # many leaves: one rotating form besides the basic one (compile time is the budget)
+        return ["refvar", rest[n % len(rest)]]
     return ["refvar", rest[(2 * n) % len(rest)], rest[(2 * n + 1) % len(rest)]]
 
 
